@@ -20,7 +20,7 @@
    strings): a Kwargs value is [kwargs_val kv]; LoadKey pushes the name as VInt; the closure id
    pushed by GetClosure is VInt id; BuildMacro(name, offset, flags) carries the macro record it
    builds, and a call finds the body's offset by searching the code for the BuildMacro of an equal
-   record ([macro_offset]).
+   record ([macro_offset], decidable equality of the syntax).
    Not modelled: recursion limit / depth accounting, fuel, spans, loop recursion (FastRecurse,
    current_recursion_jump), loop.depth / previtem / nextitem / cycle / changed. *)
 From MJ Require Import Common.Base Lang.Syntax Lang.Meta Lang.Interp.
@@ -88,98 +88,47 @@ Definition split_kwargs (args : list value) : list value * list (name * value) :
   | [] => (args, [])
   end.
 
-(* ---- structural equality of macro records (only used to find a macro's code) ---- *)
-Definition lit_eqb (a b : lit) : bool :=
-  match a, b with
-  | LInt x, LInt y => x =? y
-  | LStr x, LStr y => list_eqb_Z x y
-  | LBool x, LBool y => Bool.eqb x y
-  | LNone, LNone => true
-  | _, _ => false
-  end.
-Definition binop_eqb (a b : binop) : bool :=
-  match a, b with
-  | OAdd, OAdd | OSub, OSub | OMul, OMul | OFloorDiv, OFloorDiv | ORem, ORem | OConcat, OConcat => true
-  | _, _ => false
-  end.
-Definition cmpop_eqb (a b : cmpop) : bool :=
-  match a, b with
-  | CEq, CEq | CNe, CNe | CLt, CLt | CLe, CLe | CGt, CGt | CGe, CGe | CIn, CIn | CNotIn, CNotIn => true
-  | _, _ => false
-  end.
+(* ---- decidable equality of macro records (only used to find a macro's code) ---- *)
+Definition lit_eq_dec (a b : lit) : {a = b} + {a <> b}.
+Proof. decide equality; try apply Z.eq_dec; try apply bool_dec; apply (list_eq_dec Z.eq_dec). Defined.
+Definition binop_eq_dec (a b : binop) : {a = b} + {a <> b}. Proof. decide equality. Defined.
+Definition cmpop_eq_dec (a b : cmpop) : {a = b} + {a <> b}. Proof. decide equality. Defined.
+Definition target_eq_dec (a b : target) : {a = b} + {a <> b}. Proof. decide equality; apply Z.eq_dec. Defined.
+Definition pair_eq_dec {A B} (da : forall a b : A, {a = b} + {a <> b}) (db : forall a b : B, {a = b} + {a <> b})
+  (p q : A * B) : {p = q} + {p <> q}.
+Proof. decide equality. Defined.
+Definition option_eq_dec {A} (da : forall a b : A, {a = b} + {a <> b}) (p q : option A) : {p = q} + {p <> q}.
+Proof. decide equality. Defined.
 
-Definition list_eqb {X} (eqb : X -> X -> bool) : list X -> list X -> bool :=
-  fix go (a b : list X) : bool :=
-    match a, b with
-    | [], [] => true
-    | x :: a, y :: b => eqb x y && go a b
-    | _, _ => false
-    end.
+Fixpoint expr_eq_dec (a b : expr) {struct a} : {a = b} + {a <> b}.
+Proof.
+  decide equality; try apply Z.eq_dec; try apply bool_dec; try apply lit_eq_dec; try apply binop_eq_dec;
+    try (apply list_eq_dec; exact expr_eq_dec);
+    try (apply option_eq_dec; exact expr_eq_dec);
+    try (apply list_eq_dec; apply pair_eq_dec; [first [apply cmpop_eq_dec|apply Z.eq_dec]|exact expr_eq_dec]).
+Defined.
 
-Fixpoint expr_eqb (a b : expr) {struct a} : bool :=
-  match a, b with
-  | EConst x, EConst y => lit_eqb x y
-  | EVar x, EVar y => x =? y
-  | EList x, EList y => list_eqb expr_eqb x y
-  | ENeg x, ENeg y | ENot x, ENot y => expr_eqb x y
-  | EBin o x1 x2, EBin p y1 y2 => binop_eqb o p && expr_eqb x1 y1 && expr_eqb x2 y2
-  | ECmp x r, ECmp y q =>
-      expr_eqb x y && list_eqb (fun p1 p2 => cmpop_eqb (fst p1) (fst p2) && expr_eqb (snd p1) (snd p2)) r q
-  | EAnd x1 x2, EAnd y1 y2 | EOr x1 x2, EOr y1 y2 | EItem x1 x2, EItem y1 y2 => expr_eqb x1 y1 && expr_eqb x2 y2
-  | EIf c1 t1 f1, EIf c2 t2 f2 =>
-      expr_eqb c1 c2 && expr_eqb t1 t2 &&
-      match f1, f2 with Some x, Some y => expr_eqb x y | None, None => true | _, _ => false end
-  | EAttr x n, EAttr y k => expr_eqb x y && (n =? k)
-  | EFilter f x r, EFilter g y q => (f =? g) && expr_eqb x y && list_eqb expr_eqb r q
-  | ETest f x r n, ETest g y q k => (f =? g) && expr_eqb x y && list_eqb expr_eqb r q && Bool.eqb n k
-  | ECall f r kw, ECall g q kv =>
-      (f =? g) && list_eqb expr_eqb r q
-      && list_eqb (fun p1 p2 => (fst p1 =? fst p2) && expr_eqb (snd p1) (snd p2)) kw kv
-  | _, _ => false
-  end.
+Fixpoint stmt_eq_dec (a b : stmt) {struct a} : {a = b} + {a <> b}.
+Proof.
+  decide equality; try apply Z.eq_dec; try apply bool_dec; try apply expr_eq_dec; try apply target_eq_dec;
+    try (apply (list_eq_dec Z.eq_dec));
+    try (apply list_eq_dec; exact stmt_eq_dec);
+    try (apply list_eq_dec; exact expr_eq_dec);
+    try (apply option_eq_dec; first [exact expr_eq_dec|apply Z.eq_dec|apply list_eq_dec; exact stmt_eq_dec]);
+    try (apply list_eq_dec; apply pair_eq_dec; [first [apply Z.eq_dec|exact expr_eq_dec]|first [exact expr_eq_dec|apply list_eq_dec; exact stmt_eq_dec]]).
+Defined.
 
-Definition target_eqb (a b : target) : bool :=
-  match a, b with
-  | TVar x, TVar y => x =? y
-  | TPair x1 x2, TPair y1 y2 => (x1 =? y1) && (x2 =? y2)
-  | _, _ => false
-  end.
-Definition opt_eqb {X} (eqb : X -> X -> bool) (a b : option X) : bool :=
-  match a, b with Some x, Some y => eqb x y | None, None => true | _, _ => false end.
-Definition binds_eqb (kw kv : list (name * expr)) : bool :=
-  list_eqb (fun p1 p2 => (fst p1 =? fst p2) && expr_eqb (snd p1) (snd p2)) kw kv.
-
-Fixpoint stmt_eqb (a b : stmt) {struct a} : bool :=
-  let body_eqb := list_eqb stmt_eqb in
-  match a, b with
-  | SRaw x, SRaw y => list_eqb_Z x y
-  | SEmit x, SEmit y => expr_eqb x y
-  | SIf r e, SIf q f =>
-      list_eqb (fun p1 p2 => expr_eqb (fst p1) (fst p2) && body_eqb (snd p1) (snd p2)) r q
-      && match e, f with Some x, Some y => body_eqb x y | None, None => true | _, _ => false end
-  | SFor t1 i1 f1 b1 e1 r1, SFor t2 i2 f2 b2 e2 r2 =>
-      target_eqb t1 t2 && expr_eqb i1 i2 && opt_eqb expr_eqb f1 f2 && body_eqb b1 b2
-      && match e1, e2 with Some x, Some y => body_eqb x y | None, None => true | _, _ => false end
-      && Bool.eqb r1 r2
-  | SSet x e, SSet y f => (x =? y) && expr_eqb e f
-  | SSetBlock x b1 f1, SSetBlock y b2 f2 => (x =? y) && body_eqb b1 b2 && opt_eqb Z.eqb f1 f2
-  | SWith k1 b1, SWith k2 b2 => binds_eqb k1 k2 && body_eqb b1 b2
-  | SMacro n1 p1 d1 b1, SMacro n2 p2 d2 b2 => (n1 =? n2) && list_eqb_Z p1 p2 && binds_eqb d1 d2 && body_eqb b1 b2
-  | SCallBlock n1 a1 b1, SCallBlock n2 a2 b2 => (n1 =? n2) && list_eqb expr_eqb a1 a2 && body_eqb b1 b2
-  | SFilterBlock f1 b1, SFilterBlock f2 b2 => (f1 =? f2) && body_eqb b1 b2
-  | SAutoEscape v1 b1, SAutoEscape v2 b2 => expr_eqb v1 v2 && body_eqb b1 b2
-  | SBreak, SBreak | SContinue, SContinue => true
-  | _, _ => false
-  end.
-
-Definition macro_eqb (a b : macro) : bool :=
-  (m_name a =? m_name b) && list_eqb_Z (m_params a) (m_params b) && binds_eqb (m_defaults a) (m_defaults b)
-  && list_eqb stmt_eqb (m_body a) (m_body b) && Bool.eqb (m_caller a) (m_caller b).
+Definition macro_eq_dec (a b : macro) : {a = b} + {a <> b}.
+Proof.
+  decide equality; try apply Z.eq_dec; try apply bool_dec; try (apply (list_eq_dec Z.eq_dec));
+    try (apply list_eq_dec; exact stmt_eq_dec);
+    try (apply list_eq_dec; apply pair_eq_dec; [apply Z.eq_dec|exact expr_eq_dec]).
+Defined.
 
 Fixpoint macro_offset (C : list instr) (mc : macro) : option nat :=
   match C with
   | [] => None
-  | IBuildMacro mc' off _ :: r => if macro_eqb mc mc' then Some off else macro_offset r mc
+  | IBuildMacro mc' off _ :: r => if macro_eq_dec mc mc' then Some off else macro_offset r mc
   | _ :: r => macro_offset r mc
   end.
 
